@@ -140,12 +140,19 @@ def readonly_case(cfg, port, seed, part):
                      "frames_in_monitoring_phase": part.counters.get("readonly_frames_seen")})
 
 
+def et_variant_sim(variant):
+    """'ETU' = current firmware; 'ETU/v1' = older firmware that refuses the eco-mode v2 and peak-shaving registers (the object falls back to the 8-byte groups);
+    'ETU/nopeak' = eco-mode v2 without peak shaving"""
+    tag, _, fwv = variant.partition("/")
+    return models.et_sim(tag=tag, rnd=None, refused_blocks={"v1": ["eco_v2", "peak_shaving"], "nopeak": ["peak_shaving"]}.get(fwv, []))
+
+
 def invalid_case(fam, port, variant, seed, part, wide):
     g = env.goodwe()
     rnd = random.Random(seed)
     OM = g.OperationMode
     if fam == "ET":
-        sim = models.et_sim(tag=variant, rnd=None)
+        sim = et_variant_sim(variant)
     elif fam == "DT":
         sim = models.dt_sim(tag=variant)
     else:
@@ -358,7 +365,7 @@ def concurrent_invalid_case(fam, port, variant, seed, part):
 
     def mksim():
         if fam == "ET":
-            return models.et_sim(tag=variant)
+            return et_variant_sim(variant)
         if fam == "DT":
             return models.dt_sim(tag=variant)
         return models.es_sim(fw=variant.encode())
@@ -444,7 +451,7 @@ def other_firmware_ids(fam, port, code, part):
 
 def plan(tier, seed):
     specs = [{"mode": "ro", "shard": i, "shards": 12, "tier": tier, "seed": seed} for i in range(12)]
-    for fam, variants in (("ET", ["ETU", "ETT", "EHU"]), ("DT", ["DTU", "DSN"]), ("ES", ["02525", "2225F", "1414E"])):
+    for fam, variants in (("ET", ["ETU", "ETT", "EHU", "ETU/v1", "ETT/nopeak"]), ("DT", ["DTU", "DSN"]), ("ES", ["02525", "2225F", "1414E"])):
         for v in variants:
             for port in ((8899, 502) if fam != "ES" else (8899,)):
                 specs.append({"mode": "inv", "family": fam, "variant": v, "port": port, "seed": f"{seed}:C18:inv:{fam}:{v}:{port}",
